@@ -171,7 +171,8 @@ pub enum Kind {
     /// categorical from fixed-point table via the library constructor
     Fixed { probs: Vec<u64> },
     /// leakily quantized distribution over lo..=hi
-    Quant { fam: Fam, a: f64, b: f64, lo: i32, hi: i32 },
+    /// `sym`: native symbol type of the quantizer: 0 = i32 (default), 1 = u8, 2 = i8, 3 = i16, 4 = u16
+    Quant { fam: Fam, a: f64, b: f64, lo: i32, hi: i32, #[serde(default)] sym: u8 },
 }
 
 #[derive(Clone, Debug, Serialize, Deserialize, PartialEq)]
@@ -300,6 +301,16 @@ impl SymT for i32 {
         self as i64
     }
 }
+macro_rules! symt_small {
+    ($($T:ty),*) => { $(
+        impl SymT for $T {
+            fn from_i64(x: i64) -> Option<Self> { <$T>::try_from(x).ok() }
+            fn to_i64(self) -> i64 { self as i64 }
+        }
+    )* };
+}
+symt_small!(u8, i8, i16, u16);
+
 impl SymT for i64 {
     fn from_i64(x: i64) -> Option<Self> {
         Some(x)
@@ -458,13 +469,25 @@ macro_rules! lib_builder {
                     let m = Cat::<P>::from_nonzero_fixed_point_probabilities(pr.iter(), false).ok()?;
                     contiguous_reprs::<P>(m, repr)
                 }
-                Kind::Quant { fam, a, b, lo, hi } => {
-                    let q = LeakyQuantizer::<f64, i32, $Prob, P>::new(*lo..=*hi);
-                    match fam {
-                        Fam::Gaussian => quant_reprs::<_, P>(q, Gaussian::new(*a, *b), repr),
-                        Fam::Laplace => quant_reprs::<_, P>(q, Laplace::new(*a, *b), repr),
-                        Fam::Cauchy => quant_reprs::<_, P>(q, Cauchy::new(*a, *b), repr),
-                        Fam::Binomial => quant_reprs::<_, P>(q, Binomial::new(*a as usize, *b), repr),
+                Kind::Quant { fam, a, b, lo, hi, sym } => {
+                    macro_rules! with_sym {
+                        ($Sy:ty) => {{
+                            let (Ok(l), Ok(h)) = (<$Sy>::try_from(*lo), <$Sy>::try_from(*hi)) else { return None };
+                            let q = LeakyQuantizer::<f64, $Sy, $Prob, P>::new(l..=h);
+                            match fam {
+                                Fam::Gaussian => quant_reprs::<_, $Sy, P>(q, Gaussian::new(*a, *b), repr),
+                                Fam::Laplace => quant_reprs::<_, $Sy, P>(q, Laplace::new(*a, *b), repr),
+                                Fam::Cauchy => quant_reprs::<_, $Sy, P>(q, Cauchy::new(*a, *b), repr),
+                                Fam::Binomial => quant_reprs::<_, $Sy, P>(q, Binomial::new(*a as usize, *b), repr),
+                            }
+                        }};
+                    }
+                    match sym {
+                        1 => with_sym!(u8),
+                        2 => with_sym!(i8),
+                        3 => with_sym!(i16),
+                        4 => with_sym!(u16),
+                        _ => with_sym!(i32),
                     }
                 }
             }
@@ -473,35 +496,36 @@ macro_rules! lib_builder {
         #[allow(dead_code)]
         mod $name {
             use super::*;
-            pub(super) fn quant_reprs<D, const P: usize>(
-                q: LeakyQuantizer<f64, i32, $Prob, P>,
+            pub(super) fn quant_reprs<D, Sy, const P: usize>(
+                q: LeakyQuantizer<f64, Sy, $Prob, P>,
                 d: D,
                 repr: Repr,
             ) -> Option<FnModel<$Prob>>
             where
                 D: probability::distribution::Distribution + probability::distribution::Inverse + 'static,
-                D::Value: num_traits::AsPrimitive<i32>,
+                D::Value: num_traits::AsPrimitive<Sy>,
+                Sy: SymT + num_traits::PrimInt + num_traits::AsPrimitive<$Prob> + num_traits::AsPrimitive<usize> + Into<f64> + num_traits::WrappingSub + num_traits::WrappingAdd + core::hash::Hash + Default,
             {
                 let m = q.quantize(d);
                 match repr {
-                    Repr::Plain | Repr::View => Some(both_of::<_, i32, $Prob, P>(m)),
+                    Repr::Plain | Repr::View => Some(both_of::<_, Sy, $Prob, P>(m)),
                     Repr::FromTable => {
                         let table: Vec<_> = m.symbol_table().collect();
-                        let syms: Vec<i32> = table.iter().map(|t| t.0).collect();
+                        let syms: Vec<Sy> = table.iter().map(|t| t.0).collect();
                         let probs: Vec<$Prob> = table.iter().map(|t| t.2.get()).collect();
-                        let e = NonContiguousCategoricalEncoderModel::<i32, $Prob, P>::from_symbols_and_nonzero_fixed_point_probabilities(
+                        let e = NonContiguousCategoricalEncoderModel::<Sy, $Prob, P>::from_symbols_and_nonzero_fixed_point_probabilities(
                             syms.iter().cloned(), probs.iter(), false);
-                        let d = NonContiguousCategoricalDecoderModel::<i32, $Prob, Vec<($Prob, i32)>, P>::from_symbols_and_nonzero_fixed_point_probabilities(
+                        let d = NonContiguousCategoricalDecoderModel::<Sy, $Prob, Vec<($Prob, Sy)>, P>::from_symbols_and_nonzero_fixed_point_probabilities(
                             syms.iter().cloned(), probs.iter(), false);
                         match (e, d) {
                             (Ok(e), Ok(d)) => Some(FnModel {
-                                enc: Some(enc_of::<_, i32, $Prob, P>(Rc::new(e))),
-                                dec: Some(dec_of::<_, i32, $Prob, P>(Rc::new(d))),
+                                enc: Some(enc_of::<_, Sy, $Prob, P>(Rc::new(e))),
+                                dec: Some(dec_of::<_, Sy, $Prob, P>(Rc::new(d))),
                             }),
                             _ => None,
                         }
                     }
-                    r => generic_reprs!(&m, i32, $Prob, P, r, lookup = $lookup),
+                    r => generic_reprs!(&m, Sy, $Prob, P, r, lookup = $lookup),
                 }
             }
 
@@ -590,17 +614,28 @@ pub fn spec_plausible(spec: &ModelSpec) -> bool {
             table_valid(pb, p, probs) && first.checked_add(probs.len() as i64).is_some()
         }
         Kind::Uniform { n } => *n >= 2 && (*n as u128) <= max_syms && *n <= 1 << 20,
-        Kind::Cat { probs, .. } => {
+        Kind::Cat { probs, f32: use_f32, .. } => {
+            // documented preconditions: nonnegative entries whose sum (in the float type used)
+            // is a normal positive number
+            let sum_ok = if *use_f32 {
+                let s = probs.iter().map(|&x| x as f32).sum::<f32>();
+                s.is_normal() && s > 0.0 && probs.iter().all(|&x| (x as f32).is_finite())
+            } else {
+                let s = probs.iter().sum::<f64>();
+                s.is_normal() && s > 0.0
+            };
             probs.len() >= 2
                 && (probs.len() as u128) + 1 < max_syms
                 && probs.iter().all(|x| x.is_finite() && *x >= 0.0)
-                && probs.iter().sum::<f64>() > 1e-30
-                && probs.iter().sum::<f64>() < 1e30
+                && sum_ok
                 && pb <= 32
         }
         Kind::Fixed { probs } => table_valid(pb, p, probs) && pb <= 32,
-        Kind::Quant { fam, a, b, lo, hi } => {
+        Kind::Quant { fam, a, b, lo, hi, sym } => {
+            let (tmin, tmax): (i64, i64) = match sym { 1 => (0, 255), 2 => (-128, 127), 3 => (-32768, 32767), 4 => (0, 65535), _ => (i32::MIN as i64, i32::MAX as i64) };
             pb <= 32
+                && (*lo as i64) >= tmin
+                && (*hi as i64) <= tmax
                 && lo < hi
                 && ((*hi as i64 - *lo as i64) as u128) < max_syms - 1
                 && a.is_finite()
@@ -749,7 +784,14 @@ pub fn gen_table(rng: &mut Rng, pb: u8, p: u8, max_syms: usize) -> ModelSpec {
 
 fn gen_floats(rng: &mut Rng, n: usize) -> Vec<f64> {
     let style = rng.below(5);
-    (0..n)
+    // overall magnitude: mostly ordinary, sometimes extreme (unnormalised exp(logit) tables)
+    let magnitude = match rng.below(8) {
+        0 => 10f64.powi(-(rng.below(37) as i32)),
+        1 => 10f64.powi(rng.below(30) as i32),
+        2 => 10f64.powi(-(rng.below(300) as i32)),
+        _ => 1.0,
+    };
+    let v: Vec<f64> = (0..n)
         .map(|i| match style {
             0 => rng.f64(),
             1 => {
@@ -769,7 +811,8 @@ fn gen_floats(rng: &mut Rng, n: usize) -> Vec<f64> {
             }
             _ => 1.0,
         })
-        .collect()
+        .collect();
+    v.into_iter().map(|x| x * magnitude).collect()
 }
 
 /// A random well-formed model spec for `(pb, p)`; `lib_share` in 0..=100 is the percentage of
@@ -795,7 +838,7 @@ pub fn gen_spec(rng: &mut Rng, pb: u8, p: u8, max_syms: usize, lib_share: u64) -
                     }
                     let n = 2 + rng.usize(cap - 4);
                     let mut probs = gen_floats(rng, n);
-                    if probs.iter().sum::<f64>() <= 1e-30 {
+                    if !probs.iter().sum::<f64>().is_normal() {
                         probs[0] = 1.0;
                     }
                     let use_f32 = rng.chance(1, 2);
@@ -803,11 +846,11 @@ pub fn gen_spec(rng: &mut Rng, pb: u8, p: u8, max_syms: usize, lib_share: u64) -
                         // keep values representable and the sum finite/normal in f32
                         for x in probs.iter_mut() {
                             *x = (*x as f32).max(0.0) as f64;
-                            if !x.is_finite() || *x > 1e20 {
+                            if !x.is_finite() {
                                 *x = 1.0;
                             }
                         }
-                        if probs.iter().map(|&x| x as f32).sum::<f32>() < 1e-30 {
+                        if !probs.iter().map(|&x| x as f32).sum::<f32>().is_normal() {
                             probs[0] = 1.0;
                         }
                     }
@@ -825,9 +868,25 @@ pub fn gen_spec(rng: &mut Rng, pb: u8, p: u8, max_syms: usize, lib_share: u64) -
                     if cap < 5 {
                         continue;
                     }
-                    let width = 1 + rng.usize(cap - 3) as i32;
-                    let lo = rng.range(-300, 300) as i32;
-                    let hi = lo + width;
+                    // native symbol type of the quantizer; narrow types get supports that touch
+                    // the ends of the type's range (wrap-around territory for the search loops)
+                    let sym: u8 = if rng.chance(1, 3) { 1 + rng.below(4) as u8 } else { 0 };
+                    let (tmin, tmax): (i64, i64) = match sym { 1 => (0, 255), 2 => (-128, 127), 3 => (-32768, 32767), 4 => (0, 65535), _ => (i32::MIN as i64, i32::MAX as i64) };
+                    let max_width = ((cap - 3) as i64).min(tmax - tmin).max(1);
+                    let width = (1 + rng.below(max_width as u64) as i64) as i32;
+                    let (lo, hi): (i32, i32) = if sym == 0 {
+                        let lo = rng.range(-300, 300) as i32;
+                        (lo, lo + width)
+                    } else {
+                        match rng.below(3) {
+                            0 => ((tmax - width as i64) as i32, tmax as i32),
+                            1 => (tmin as i32, (tmin + width as i64) as i32),
+                            _ => {
+                                let lo = rng.range(tmin, tmax - width as i64);
+                                (lo as i32, (lo + width as i64) as i32)
+                            }
+                        }
+                    };
                     let mid = (lo + hi) as f64 / 2.0;
                     match rng.below(4) {
                         0 => ModelSpec {
@@ -838,7 +897,8 @@ pub fn gen_spec(rng: &mut Rng, pb: u8, p: u8, max_syms: usize, lib_share: u64) -
                                 a: (1 + rng.below(60)) as f64,
                                 b: 0.05 + 0.9 * rng.f64(),
                                 lo: 0,
-                                hi: width,
+                                hi: if sym == 2 { width.min(127) } else { width },
+                                sym: if sym == 2 || sym == 3 { sym } else if sym == 0 { 0 } else { sym },
                             },
                         },
                         k => {
@@ -855,7 +915,7 @@ pub fn gen_spec(rng: &mut Rng, pb: u8, p: u8, max_syms: usize, lib_share: u64) -
                                 2 => 1.0 + rng.f64() * 10.0,
                                 _ => 1e3 * rng.f64() + 0.1,
                             };
-                            ModelSpec { pb, p, kind: Kind::Quant { fam, a, b, lo, hi } }
+                            ModelSpec { pb, p, kind: Kind::Quant { fam, a, b, lo, hi, sym } }
                         }
                     }
                 }
